@@ -18,8 +18,10 @@ Traces == JsonDeserialize(IOEnv.TRACE_FILE)
 VARIABLES tid, l, nbad
 tvars == <<vars, tid, l, nbad>>
 Tr == Traces[tid]
-\* JSON arrays of cell numbers -> sets
-Norm(e) == [e EXCEPT !.cells = [k \in 1..Len(e.cells) |-> SeqToSet(e.cells[k])]]
+\* JSON arrays of cell numbers -> sets; content records are stored once per trace in Tr.tbl and referenced by index
+Norm(e) == [e EXCEPT !.cells = [k \in 1..Len(e.cells) |-> SeqToSet(e.cells[k])],
+                     !.pre   = [k \in 1..Len(e.pre) |-> Tr.tbl[e.pre[k]]],
+                     !.post  = [k \in 1..Len(e.post) |-> Tr.tbl[e.post[k]]]]
 TInit == /\ tid \in 1..NTRACES /\ l = 1 /\ nbad = 0
          /\ heap = <<>> /\ nodes = <<>> /\ hist = <<>>
 TStep == /\ l <= Len(Tr.ev)
